@@ -343,7 +343,7 @@ Print Assumptions C17_all_servers_same_header_limit.
 Example C17_all_servers_same_header_limit_nonvacuous :
   new_servers dflt_srv [site_idle7] true true true =
   ({| sv_read := 100; sv_rhdr := 100; sv_write := 200; sv_idle := 7; sv_maxhdr := 2048 |},
-   Some {| h3_maxhdr := 2048; h3_idle := 0 |}).
+   Some {| h3_maxhdr := 2048; h3_idle := 7 |}).
 Proof. vm_compute. reflexivity. Qed.
 
 Theorem C17_tcp_server_is_new_server :
@@ -357,14 +357,43 @@ Theorem C17_h3_server_exists_iff :
 Proof. exact new_servers_h3_exists. Qed.
 Print Assumptions C17_h3_server_exists_iff.
 
-(* "all servers of one listener carry the same merged limits" holds for the header limit (above) and is REFUTED
-   for the idle timeout (F-C17-7): NewServer never gives the HTTP/3 server a QUICConfig, so its idle timeout is
-   the library default whatever `timeouts idle` the sites configure *)
-Theorem C17_all_servers_same_idle_timeout_refuted :
-  exists dflt g sv h3, new_servers dflt g true true true = (sv, Some h3) /\
-    set_values (map s_idle g) = [7] /\ sv_idle sv = 7 /\ h3_maxhdr h3 = 2048 /\ h3_idle h3 = 0.
-Proof. exact h3_idle_timeout_refuted. Qed.
-Print Assumptions C17_all_servers_same_idle_timeout_refuted.
+(* "all servers of one listener carry the same merged limits" holds for the header limit (above) and — since the
+   repair of F-C17-7, /repo a99152d — for the idle timeout: the HTTP/3 server's QUICConfig.MaxIdleTimeout is the TCP
+   server's IdleTimeout (0 = QUICConfig nil, exactly when the TCP server has no idle timeout), hence the strictest
+   value the sites configure, the default only where no site sets one; no site's own idle timeout is relaxed on the
+   HTTP/3 server.  (Before the repair the HTTP/3 server's idle timeout was always the library default.) *)
+Theorem C17_all_servers_same_idle_timeout :
+  forall dflt g tls h2 quic sv h3,
+  new_servers dflt g tls h2 quic = (sv, Some h3) ->
+  0 <= sv_idle dflt -> (forall c, In c g -> 0 <= snd (s_idle c)) ->
+  h3_idle h3 = sv_idle sv /\
+  h3_idle h3 = merge_timeout (sv_idle dflt) (map s_idle g) /\
+  (forall c, In c g -> fst (s_idle c) = true -> honours (h3_idle h3) (snd (s_idle c)) = true).
+Proof. exact all_servers_same_idle_timeout. Qed.
+Print Assumptions C17_all_servers_same_idle_timeout.
+
+Example C17_all_servers_same_idle_timeout_nonvacuous :
+  let b := {| s_read := (false, 0); s_rhdr := (false, 0); s_write := (false, 0); s_idle := (true, 0); s_maxhdr := 0 |} in
+  new_servers dflt_srv [b; site_idle7] true true true =
+  ({| sv_read := 100; sv_rhdr := 100; sv_write := 200; sv_idle := 7; sv_maxhdr := 2048 |},
+   Some {| h3_maxhdr := 2048; h3_idle := 7 |}) /\
+  0 <= sv_idle dflt_srv /\ (forall c, In c [b; site_idle7] -> 0 <= snd (s_idle c)) /\
+  (* no site sets one: the default on both; every setting site says none: none on both *)
+  snd (new_servers dflt_srv [] true true true) = Some {| h3_maxhdr := 0; h3_idle := 300 |} /\
+  snd (new_servers dflt_srv [b] true true true) = Some {| h3_maxhdr := 0; h3_idle := 0 |}.
+Proof.
+  cbv zeta. split; [vm_compute; reflexivity|]. split; [vm_compute; discriminate|]. split.
+  - intros c [<-|[<-|[]]]; cbn; lia.
+  - split; vm_compute; reflexivity.
+Qed.
+
+(* without any hypothesis: the HTTP/3 server's idle timeout is the TCP server's whenever that is positive *)
+Theorem C17_h3_idle_is_tcp_idle :
+  forall dflt g tls h2 quic sv h3,
+  new_servers dflt g tls h2 quic = (sv, Some h3) ->
+  h3_idle h3 = if 0 <? sv_idle sv then sv_idle sv else 0.
+Proof. exact h3_idle_is_tcp_idle. Qed.
+Print Assumptions C17_h3_idle_is_tcp_idle.
 
 (* ---- sequences of uploads on one site whose proxy upstream counts failures ---- *)
 (* Every request of a sequence is answered exactly as it would be alone — 413 over the limit, the backend's 200
